@@ -184,6 +184,7 @@ class Options:
         self.validate_paths = 2 if tier == "quick" else 4
         self.box = (-4, 4)
         self.profile = True
+        self.solver_diff = 0.0 if tier == "quick" else 0.02    # share of obligations re-decided by z3 4.8.12 and cvc5
         self.ties = False                       # explore two-way ties (C01/C02: valid subgradient at kinks)
         self.max_ties = 12 if tier == "quick" else 64
 
@@ -672,8 +673,15 @@ def decide_case(case, opts):
                 if verdict.status == "sat":
                     cand_point = dict(pr.model)
             if cand_point is None:
+                dump = [] if (opts.solver_diff and rng.random() < opts.solver_diff) else None
                 verdict = lw.decide(pairs, assumptions, timeout_ms=opts.timeout_ms, box=None if claims else opts.box,
-                                    claims=claims)
+                                    claims=claims, dump=dump)
+                if dump:
+                    res.setdefault("solver_diff", []).append(dump[0])
+                    if not dump[0]["agree"]:
+                        res["inconclusive"].append("solver disagreement: %s" % (dump[0],))
+                        res["status"] = "harness"
+                        continue
                 if verdict.status == "sat":
                     cand_point = dict(pr.model)
                     cand_point.update(verdict.point)
